@@ -265,6 +265,12 @@ impl Debugee {
         self.rendezvous.as_ref().expect("rendezvous must exists")
     }
 
+    /// Return rendezvous struct, `None` before the program entry point is reached and for
+    /// statically linked programs (no dynamic linker).
+    pub fn rendezvous_opt(&self) -> Option<&Rendezvous> {
+        self.rendezvous.as_ref()
+    }
+
     /// Return debugee [`Tracer`]
     pub fn tracer_mut(&mut self) -> &mut Tracer {
         &mut self.tracer
@@ -302,13 +308,27 @@ impl Debugee {
                 match mb_type {
                     Some(BrkptType::EntryPoint) => {
                         let main_dwarf = self.program_debug_info()?;
-                        self.rendezvous = Some(Rendezvous::new(
+                        let rendezvous = Rendezvous::new(
                             tid,
                             self.mapping_offset_for_file(main_dwarf)?,
                             &self.object_sections,
-                        )?);
-                        self.attach_libthread_db();
-                        self.update_debug_info_registry(true)?;
+                        );
+                        match rendezvous {
+                            Ok(rendezvous) => {
+                                self.rendezvous = Some(rendezvous);
+                                self.attach_libthread_db();
+                                self.update_debug_info_registry(true)?;
+                            }
+                            Err(
+                                RendezvousError::DynamicSectNotFound | RendezvousError::NotFound,
+                            ) => {
+                                // statically linked program: there is no dynamic linker and
+                                // there are no shared libraries to track
+                                info!(target: "loading", "no rendezvous with a dynamic linker, the program is statically linked");
+                                self.attach_libthread_db();
+                            }
+                            Err(e) => return Err(e.into()),
+                        }
                     }
                     Some(BrkptType::LinkerMapFn) => {
                         self.update_debug_info_registry(false)?;
